@@ -97,6 +97,37 @@ class E:
     def __pos__(s):
         return s
 
+    def __abs__(s):
+        from sx import core
+        return s if core.ENG.branch(s.t >= 0) else -s
+
+    # comparisons fork through the sx engine (piecewise definitions of the kernel are explored path by path)
+    def _cmp(s, o, f):
+        from sx import core
+        if not isinstance(o, (E, int, float)):
+            return NotImplemented
+        return core.ENG.branch(f(s.t, lift(o)))
+
+    def __lt__(s, o):
+        return s._cmp(o, lambda a, b: a < b)
+
+    def __le__(s, o):
+        return s._cmp(o, lambda a, b: a <= b)
+
+    def __gt__(s, o):
+        return s._cmp(o, lambda a, b: a > b)
+
+    def __ge__(s, o):
+        return s._cmp(o, lambda a, b: a >= b)
+
+    def __eq__(s, o):
+        return s._cmp(o, lambda a, b: a == b)
+
+    def __ne__(s, o):
+        return s._cmp(o, lambda a, b: a != b)
+
+    __hash__ = None
+
 
 def grid_anchors(x, P, lo, hi):
     """certified enclosures of Phi on the integer grid (mpmath, 40 digits), turned into monotone bounds"""
